@@ -22,7 +22,7 @@ def oracle(d):
 
 
 def run(ctx):
-    return ec.generic(ctx, 'C04', OPTS, n_quick=(32, 60), n_thorough=(128, 300), with_values=False, with_parse=False, oracle=oracle)
+    return ec.generic(ctx, 'C04', OPTS, n_quick=(48, 100), n_thorough=(128, 400), with_values=False, with_parse=False, oracle=oracle)
 
 
 def replay(ctx, payload):
